@@ -5,7 +5,7 @@ package main
 //   -cover -covermode=atomic -coverpkg=github.com/coregx/coregex/...,verif/harness/...
 // (runtime/coverage.ClearCounters / WriteCounters): deterministic, whole-library, no hook can be forgotten.
 // Inputs: for every TLC-generated pattern, short haystacks of its record split as u·v·w and pumped to u·v^k·w with
-// n in {128 .. 4096 (quick) / 16384 (thorough)}; each measurement is the second of two identical calls.
+// n in {128 .. 2048 (quick) / 8192 (thorough)}; each measurement is the second of two identical calls.
 // Verdict (DESIGN.md 6 C05): superlinear iff the least-squares slope of log(work) against log(n) exceeds 1.35 AND the
 // last two doubling ratios both exceed 2.4 AND the largest measurement is above the noise floor - a one-off step
 // (a cache that starts clearing, a fallback that kicks in) changes the constant, not the slope, and must not alarm.
@@ -124,6 +124,7 @@ func runWork(args []string) {
 	parts := fs.Int("parts", 1, "")
 	maxN := fs.Int("maxn", 4096, "")
 	maxPat := fs.Int("maxpat", 100000, "")
+	allSplits := fs.Bool("splits", false, "also pump the first and the last symbol alone")
 	fs.Parse(args)
 	rep, err := core.NewReport(*fails)
 	if err != nil {
@@ -159,18 +160,17 @@ func runWork(args []string) {
 			return
 		}
 		npat++
-		// haystacks: the three longest of the record (they come last); splits: whole / first symbol / last symbol pumped
-		picked := 0
-		for hi := len(rec.Hs) - 1; hi >= 0 && picked < 3; hi -= 1 + len(rec.Hs)/5 {
+		// every haystack of the record with at least 2 symbols; pumped whole, and (thorough: -splits) by its first and last symbol
+		for hi := range rec.Hs {
 			h := rec.Hs[hi].H
 			if len(h) < 2 {
 				continue
 			}
-			picked++
-			for _, sp := range [][2]int{{0, len(h)}, {0, 1}, {len(h) - 1, len(h)}, {1, len(h) - 1}} {
-				if sp[0] >= sp[1] {
-					continue
-				}
+			splits := [][2]int{{0, len(h)}}
+			if *allSplits {
+				splits = append(splits, [2]int{0, 1}, [2]int{len(h) - 1, len(h)})
+			}
+			for _, sp := range splits {
 				u, v, w := core.HayBytes(h[:sp[0]]), core.HayBytes(h[sp[0]:sp[1]]), core.HayBytes(h[sp[1]:])
 				families++
 				for _, a := range apis {
@@ -193,7 +193,7 @@ func runWork(args []string) {
 						calls += 2
 						ns = append(ns, len(hay))
 						ws = append(ws, wk)
-						if d > 250*time.Millisecond {
+						if d > 40*time.Millisecond {
 							slow = true // do not pump further: the points measured so far decide
 						}
 					}
